@@ -11,6 +11,7 @@ import (
 	"time"
 
 	tally "github.com/uber-go/tally/v4"
+	"github.com/uber-go/tally/v4/m3"
 )
 
 // Concurrency scenarios for C07 / C08 / C09 driven by the cooperative scheduler, judged by
@@ -326,12 +327,103 @@ func scenarioC07Random(c *Ctx, r *Rng) {
 	w.closer.Close()
 }
 
+// aliasWorld: a root whose sanitizer maps the tag keys "k 1" and "k+1" to the same key "k_1" -- a scope obtained
+// through one spelling is registered under the sanitized key and under that raw spelling
+func aliasWorld(cached bool) *world {
+	o := m3.DefaultSanitizerOpts
+	worldSanitize = &o
+	w := newWorld(cached, 0, 1, false)
+	worldSanitize = nil
+	return w
+}
+
+// a scope registered under two keys is visited twice by one pass; between the two visits the application records on
+// it and closes it.  The second visit finds it closed: it has to report it before collecting it.
+func scenarioCloseBetweenAliasVisits(c *Ctx, cached bool) {
+	w := aliasWorld(cached)
+	sx := w.root.Tagged(map[string]string{"k 1": "v"})
+	cx := sx.Counter("c")
+	w.inc(cx, "c", 1)
+	s := NewSched(nil)
+	visits := 0
+	s.ParkOnT = func(th, l string) bool {
+		if th == "P" && l == "registry.visit" {
+			visits++
+			return visits >= 2 // the root's own entry comes first or in between; park at every later entry
+		}
+		return false
+	}
+	P := s.Spawn("P", func() { tally.VerifReportOnce(w.root) })
+	// step P from visit to visit until the scope has been delivered once (its first visit is over)
+	for i := 0; i < 6 && !P.Done; i++ {
+		s.Step(P)
+		if got, _ := w.delivered(); got["c"] == 1 {
+			break
+		}
+	}
+	if P.Done {
+		s.Finish()
+		c.Cov.Hit("alias-visits.not-reached")
+		w.closer.Close()
+		return
+	}
+	w.note("P parked at a later registry entry; the scope was visited once (c=1 delivered)")
+	w.inc(cx, "c", 7)
+	sx.(io.Closer).Close()
+	w.note("c += 7, close")
+	l := runUntil(s, P, never)
+	w.note("P %s", l)
+	s.Finish()
+	tally.VerifReportOnce(w.root)
+	tally.VerifReportOnce(w.root)
+	w.checkConservation(c, "C07", "close-between-the-two-visits-of-an-aliased-scope")
+	c.Cov.Eval(strings.Join(w.trace, " | "), true)
+	c.Cov.Schedules++
+	w.closer.Close()
+}
+
+// a closed, not yet collected scope is being replaced by a caller that used another spelling (write-locked branch of
+// Subscope: report the closed scope, drop it, register a fresh one); that caller is parked right before the reporter
+// call when a second caller asks for the identity and records on what it gets.  Whatever the second caller got must
+// stay registered: its increments are delivered.
+func scenarioReacquireWhileClosedAliasIsDelivered(c *Ctx, cached bool) {
+	w := aliasWorld(cached)
+	sx := w.root.Tagged(map[string]string{"k 1": "v"})
+	w.inc(sx.Counter("c"), "c", 5)
+	sx.(io.Closer).Close()
+	w.note("scope {k 1:v}: c=5, closed (not collected)")
+	s := NewSched(nil)
+	s.ParkOnT = func(th, l string) bool { return th == "U1" && l == "counter.deliver" }
+	s.Timeout = 200 * time.Millisecond
+	U1 := s.Spawn("U1", func() { w.inc(w.root.Tagged(map[string]string{"k+1": "v"}).Counter("c"), "c", 1) })
+	l0 := runUntil(s, U1, func(l, _ string) bool { return l == "counter.deliver" })
+	w.note("U1 (other spelling k+1) parked at %s: delivering the closed scope's 5", l0)
+	U2 := s.Spawn("U2", func() { w.inc(w.root.Tagged(map[string]string{"k_1": "v"}).Counter("c"), "c", 11) })
+	l1 := runUntil(s, U2, never)
+	w.note("U2 (same identity, canonical spelling k_1) %s", l1)
+	l2 := runUntil(s, U1, never)
+	w.note("U1 %s", l2)
+	if !U2.Done {
+		l3, _ := s.Step(U2)
+		w.note("U2 %s", l3)
+	}
+	s.Finish()
+	tally.VerifReportOnce(w.root)
+	tally.VerifReportOnce(w.root)
+	w.checkConservation(c, "C07", "reacquire-while-closed-alias-is-being-delivered")
+	c.Cov.Eval(strings.Join(w.trace, " | "), true)
+	c.Cov.Schedules++
+	w.closer.Close()
+}
+
 func suiteC07Conc(c *Ctx) {
-	c.Cov.Rule = "scripted schedules (pass parked in the removal hand-over while the identity is re-acquired; pass parked between reporting a scope and reading its closed flag) and sampled schedules of 1-2 application threads doing {obtain, record, Close, obtain again} on 1-2 identities against 1-2 pass threads with context switches at every registry hook, 1 and 4 shards, plain and cached reporter; oracle: per counter name, everything recorded on a live scope is delivered exactly once after two further passes; every schedule is nontrivial (it contains a context switch inside the registry); distinct by step trace"
+	c.Cov.Rule = "scripted schedules (pass parked in the removal hand-over while the identity is re-acquired; pass parked between reporting a scope and reading its closed flag; with a sanitizer that gives one identity two spellings: a scope closed between its two visits of one pass, and a second caller re-requesting an identity while the closed scope registered under it is being delivered by a first one) and sampled schedules of 1-2 application threads doing {obtain, record, Close, obtain again} on 1-2 identities against 1-2 pass threads with context switches at every registry hook, 1 and 4 shards, plain and cached reporter; oracle: per counter name, everything recorded on a live scope is delivered exactly once after two further passes; every schedule is nontrivial (it contains a context switch inside the registry); distinct by step trace"
 	for _, cached := range []bool{false, true} {
 		scenarioRemoveByKey(c, cached)
 		scenarioClosedReadAfterReport(c, cached)
 		scenarioCloseDuringOwnReport(c, cached)
+		scenarioCloseBetweenAliasVisits(c, cached)
+		scenarioReacquireWhileClosedAliasIsDelivered(c, cached)
 	}
 	n := c.N(150, 3000)
 	for i := 0; i < n; i++ {
